@@ -1109,6 +1109,53 @@ def unroll_reflective_loops(tree):
     return log
 
 
+def drain_loops_to_for(tree):
+    """`q = deque(E)` (or `list(E)`) followed by `while q: v = q.popleft()` (or `q.pop(0)`) `; BODY`, `q` used for nothing
+    else: the loop visits the elements of the snapshot in order - `for v in list(E): BODY`."""
+    log = []
+    for fn in [n for n in ast.walk(tree) if isinstance(n, FUNC)]:
+        uses = {}
+        for n in _shallow(fn.body):
+            if isinstance(n, ast.Name):
+                uses[n.id] = uses.get(n.id, 0) + 1
+        nested_uses = {y.id for x in ast.walk(fn) if isinstance(x, FUNC + (ast.Lambda,)) and x is not fn for y in ast.walk(x) if isinstance(y, ast.Name)}
+
+        def block(stmts):
+            i = 0
+            while i < len(stmts):
+                st = stmts[i]
+                for field in ("body", "orelse", "finalbody"):
+                    b = getattr(st, field, None)
+                    if isinstance(b, list) and b and isinstance(b[0], ast.stmt) and not isinstance(st, FUNC + (ast.ClassDef,)):
+                        block(b)
+                for h in getattr(st, "handlers", None) or []:
+                    block(h.body)
+                if (isinstance(st, ast.Assign) and len(st.targets) == 1 and isinstance(st.targets[0], ast.Name) and isinstance(st.value, ast.Call)
+                        and isinstance(st.value.func, ast.Name) and st.value.func.id in ("deque", "list") and len(st.value.args) == 1 and not st.value.keywords
+                        and i + 1 < len(stmts) and isinstance(stmts[i + 1], ast.While) and not stmts[i + 1].orelse):
+                    q = st.targets[0].id
+                    w = stmts[i + 1]
+                    first = w.body[0] if w.body else None
+                    if (isinstance(w.test, ast.Name) and w.test.id == q and uses.get(q) == 3 and q not in nested_uses and isinstance(first, ast.Assign)
+                            and len(first.targets) == 1 and isinstance(first.targets[0], ast.Name) and isinstance(first.value, ast.Call)
+                            and isinstance(first.value.func, ast.Attribute) and isinstance(first.value.func.value, ast.Name) and first.value.func.value.id == q
+                            and ((first.value.func.attr == "popleft" and not first.value.args) or (first.value.func.attr == "pop" and len(first.value.args) == 1 and isinstance(
+                                first.value.args[0], ast.Constant) and first.value.args[0].value == 0))
+                            and not any(isinstance(x, ast.Break) for b in w.body for x in ast.walk(b))):
+                        loop = ast.For(target=ast.Name(id=first.targets[0].id, ctx=ast.Store()),
+                                       iter=ast.Call(func=ast.Name(id="list", ctx=ast.Load()), args=[st.value.args[0]], keywords=[]),
+                                       body=w.body[1:] or [ast.Pass()], orelse=[], type_comment=None)
+                        ast.copy_location(loop, w)
+                        stmts[i:i + 2] = [loop]
+                        log.append("drain loop over `%s` -> for loop over the snapshot at line %d" % (q, st.lineno))
+                        continue
+                i += 1
+        block(fn.body)
+    if log:
+        ast.fix_missing_locations(tree)
+    return log
+
+
 def fold_single_use_conditions(tree):
     """`flag = <condition>` immediately followed by `if flag:` / `if not flag:` where `flag` is bound once and read only
     there: the condition goes back into the test (`stopped_by_us = f.check(X) and not self.consumers; if not stopped_by_us:`).
